@@ -210,9 +210,17 @@ class FakeSelect:
         ready = _real_select.select(r, [], [], 0)[0]
         if ready:
             return ready, [], []
-        blocked = [] if rig.blocked_fired or timeout == 0 else [op for ph, op in rig.hooks if ph == "blocked"]
-        if blocked:                         # the request is blocked now: part of the waiting time passes, then the injection happens
-            rig.blocked_fired = True
+        # the request is blocked now.  Hooks of phase "blocked" fire during the first such wait of the request, "blocked2" during the
+        # second (the request was woken by something that did not end it and waits again), "blocked3" during the third: part of the
+        # waiting time of THIS wait passes, then the injection happens
+        blocked = []
+        if not rig.blocked_fired and timeout != 0:
+            rig.block_no += 1
+            phase = "blocked" if rig.block_no == 1 else f"blocked{rig.block_no}"
+            blocked = [op for ph, op in rig.hooks if ph == phase]
+            if not any(ph.startswith("blocked") and ph > phase for ph, _ in rig.hooks if ph != phase):
+                rig.blocked_fired = True
+        if blocked:
             dt = timeout / 2 if timeout is not None else 1.0
             rig.now += dt
             for op in blocked:
@@ -282,6 +290,7 @@ class Rig:
         self.req_no = 0
         self.hooks, self.hooks_fired, self.select_calls, self.first_read = [], True, 0, None
         self.blocked_fired = True
+        self.block_no = 0
         self.reads = []
         self.read_mid_char = False
         self.serial = 0
@@ -305,6 +314,7 @@ class Rig:
         self.saved = (ci.time, ci.select, ci.os, ci.getpreferredencoding)
         ci.time, ci.select, ci.os = FakeTime(self), FakeSelect(self), OsProxy(self)
         ci.getpreferredencoding = lambda: "utf-8"
+        self.old_winch = signal.signal(signal.SIGWINCH, lambda *a: None) if "signal" in repr(self.case["ops"]) else None
         self.inp = ci.Input(in_stream=_Stream(self.in_fd), keynames=kn, paste_threshold=self.pt,
                             sigint_event=bool(self.case.get("sigint_event")))
         self.entered = False
@@ -337,6 +347,8 @@ class Rig:
                 except Exception:
                     pass
         finally:
+            if getattr(self, "old_winch", None) is not None:
+                signal.signal(signal.SIGWINCH, self.old_winch)
             ci.time, ci.select, ci.os, ci.getpreferredencoding = self.saved
             for fd in _open_fds() - self.fds_before:
                 try:
@@ -450,6 +462,14 @@ class Rig:
             os.kill(os.getpid(), signal.SIGINT)
             for _ in range(50):     # give the interpreter a chance to run the Python-level handler
                 _nop()
+        elif k == "signal":
+            # a signal other than SIGINT with a Python-level handler (SIGWINCH: the terminal was resized): CPython writes its number to the
+            # wake-up descriptor, which wakes a blocked request; nothing is to be delivered
+            if not (self.entered and getattr(self.inp, "wakeup_read_fd", None) is not None):
+                return
+            os.kill(os.getpid(), signal.SIGWINCH)
+            for _ in range(50):
+                _nop()
         elif k == "adv":
             self.now += op[1]
         elif k == "suspend":
@@ -475,6 +495,7 @@ class Rig:
         self.evaluated_requests += 1
         self.hooks, self.hooks_fired, self.select_calls, self.first_read = [tuple(h) for h in hooks], False, 0, None
         self.blocked_fired = False
+        self.block_no = 0
         t0 = self.now
         sched_seen = bool(m.sched)
         try:
@@ -867,6 +888,26 @@ def typeahead_cases():
                 yield dict(base, typeahead=t, ops=[_req(0), ["suspend", "k" + t]])
 
 
+def wakeup_cases():
+    """a timed request woken once, twice, three times by something that does not end it (a signal other than SIGINT: its number arrives on
+    the wake-up descriptor) and then ended by the time-out, a thread-safe callback, a key or a SIGINT: 'None no earlier than its timeout'"""
+    sig = ["signal", "SIGWINCH"]
+    for pt in (None, 8):
+        for se in (True, False):
+            base = dict(suite="wakeups", transport="pty", pt=pt, keynames="bytes", sigint_event=se)
+            for T in (SMALL, 1.0, 8.0):
+                for k in (1, 2, 3):
+                    hooks = [(("blocked" if i == 0 else f"blocked{i + 1}"), sig) for i in range(k)]
+                    yield dict(base, ops=[_req(T, hooks), _req(0)])
+                    for last in (["ts", 0], ["bytes", hx(b"k")], ["sigint"]):
+                        yield dict(base, ops=[_req(T, hooks + [(f"blocked{k + 1}", last)]), _req(0)])
+                    yield dict(base, ops=[["sched", 0, 0.5], _req(T, hooks), _req(T, hooks[:1]), _req(0)])
+                    yield dict(base, ops=[["sched", 0, 12.0], _req(T, hooks), _req(0)])
+                # two signals during the same wait, and signals between requests
+                yield dict(base, ops=[_req(T, [("blocked", sig), ("blocked", sig), ("blocked2", sig)]), _req(0)])
+                yield dict(base, ops=[sig, sig, _req(T), sig, _req(T, [("blocked", sig)]), _req(0)])
+
+
 def burst_cases(tier):
     toks = [UTF["e2"], UTF["e3"], UTF["e4"]] + ESCS
     ks = (0, 1, 5)
@@ -1074,6 +1115,18 @@ def run(check, tier, seed):
     _collect(s, check, pmap(_batch_list, [tc[i::8] for i in range(8)]))
     s.nontrivial = set(range(s.evaluations))
     s.samples = tc[:2]
+    s.done()
+
+    # (2c) requests woken by something that does not end them
+    wc = list(wakeup_cases())
+    s = Suite(check, "C08.wakeups", "a timed request (0.25 / 1 / 8 s) on a pty woken 1, 2 or 3 times by a signal other than SIGINT (SIGWINCH with a "
+              "Python handler: its number arrives on the wake-up descriptor) at half of each remaining wait, then ended by the time-out, a "
+              "thread-safe callback, a key or a SIGINT; with a scheduled event pending before / after the time-out; two signals in one wait; "
+              "signals between requests; sigint_event on (wake-up descriptor installed) and off: None never before the time-out, everything "
+              "else as in the reference model", bound=f"{len(wc)} histories")
+    _collect(s, check, pmap(_batch_list, [wc[i::8] for i in range(8)]))
+    s.nontrivial = set(range(s.evaluations))
+    s.samples = wc[:2]
     s.done()
 
     # (3) seeded random histories
